@@ -594,6 +594,83 @@ def check_result_format(r, repo, rule="R13.6"):
 
 
 
+SIGNED_INF_FUNCS = ("mpf2float", "bin2float", "fraction2float", "mpf2expansion", "float2mpf", "float2fraction", "mpf2multiword", "number2expansion", "float2expansion")
+
+
+def check_infinity_sign(r, repo, rule="R13.7"):
+    """"Infinities map to themselves": wherever a converter produces the *constant* +infinity (numpy.inf, float("inf"), ctx.inf, not
+    under a minus sign), a test that dominates it - an enclosing if / conditional expression - must distinguish the sign of the
+    value being converted (a comparison with zero, a sign / isneg flag, the sign field `_mpf_[0]`, isposinf / isneginf, a
+    comparison with an infinity or with the strings "inf" / "-inf").  A +inf selected under `not isfinite(x)` or `isnan(x)` alone
+    turns -inf into +inf."""
+    def is_pos_inf(n):
+        d = dotted(n) or ""
+        if d in ("numpy.inf", "math.inf", "numpy.Inf", "numpy.infty") or d.endswith(".inf") and not d.startswith("-"):
+            return True
+        return isinstance(n, ast.Call) and dotted(n.func) == "float" and n.args and isinstance(n.args[0], ast.Constant) and str(n.args[0].value).lstrip("+").lower() in ("inf", "infinity")
+
+    def sign_test(t):
+        for x in ast.walk(t):
+            if isinstance(x, ast.Compare):
+                sides = [x.left] + list(x.comparators)
+                if any(isinstance(o, (ast.Lt, ast.Gt, ast.LtE, ast.GtE)) for o in x.ops) and any(isinstance(c, ast.Constant) and c.value == 0 for c in sides) :
+                    return True
+                if any(isinstance(o, (ast.Lt, ast.Gt, ast.LtE, ast.GtE)) for o in x.ops) and any(isinstance(c, ast.Call) and c.args and isinstance(c.args[0], ast.Constant) and c.args[0].value == 0 for c in sides):
+                    return True
+                if any(isinstance(c, ast.Constant) and isinstance(c.value, str) and c.value.lstrip("+-") == "inf" for c in sides):
+                    return True
+                if any(is_pos_inf(c) or (isinstance(c, ast.UnaryOp) and is_pos_inf(c.operand)) for c in sides):
+                    return True
+            if isinstance(x, ast.Name) and any(k in x.id.lower() for k in ("sign", "isneg", "negative")):
+                return True
+            if isinstance(x, ast.Attribute) and any(k in x.attr.lower() for k in ("sign", "isneg")):
+                return True
+            if isinstance(x, ast.Subscript) and isinstance(x.value, ast.Attribute) and x.value.attr == "_mpf_" and isinstance(x.slice, ast.Constant) and x.slice.value == 0:
+                return True
+            if isinstance(x, ast.Call) and (dotted(x.func) or "").split(".")[-1] in ("isposinf", "isneginf", "signbit", "copysign"):
+                return True
+        return False
+
+    n_sites = 0
+    for fname in SIGNED_INF_FUNCS:
+        if not repo.has(REL, fname):
+            continue
+        f = repo.func(REL, fname)
+        for n in ast.walk(f):
+            if not is_pos_inf(n):
+                continue
+            par = getattr(n, "_parent", None)
+            if isinstance(par, ast.UnaryOp) and isinstance(par.op, ast.USub):
+                continue  # -inf written out: the sign is explicit
+            if isinstance(par, ast.Compare):
+                continue  # a test, not a produced value
+            n_sites += 1
+            ok = False
+            child, anc = n, par
+            negated = False
+            while anc is not None and anc is not f:
+                if isinstance(anc, ast.UnaryOp) and isinstance(anc.op, ast.USub):
+                    negated = True
+                if isinstance(anc, ast.IfExp) and (child is anc.body or child is anc.orelse) and sign_test(anc.test):
+                    ok = True
+                # the sign is applied as a factor or by copysign: (-1 if num < 0 else 1) * inf, numpy.sign(num) * inf, copysign(inf, num)
+                if isinstance(anc, ast.BinOp) and isinstance(anc.op, ast.Mult):
+                    other = anc.right if child is anc.left else anc.left
+                    if sign_test(other) or any(isinstance(x_, ast.Call) and (dotted(x_.func) or "").split(".")[-1] == "sign" for x_ in ast.walk(other)):
+                        ok = True
+                if isinstance(anc, ast.Call) and (dotted(anc.func) or "").split(".")[-1] == "copysign":
+                    ok = True
+                if isinstance(anc, ast.If) and sign_test(anc.test):
+                    ok = True
+                # elif chains: earlier tests of the chain also dominate
+                child, anc = anc, getattr(anc, "_parent", None)
+            r.ob(rule, f"{REL}::{fname} constant +inf at `{norm_src(par)[:50]}` is selected under a test of the sign", ok or negated,
+                 f"`{norm_src(par)[:80]}` produces the constant +infinity and no enclosing test distinguishes the sign of the converted value: -inf comes out as +inf", loc(REL, n))
+    if n_sites < 4:
+        raise AnalysisError(f"converters: only {n_sites} constant-infinity sites recognised")
+
+
+
 def run(repo, tier):
     r = Report("C13", tier, repo, level="other", design_ref="§3/C13")
     r.explanation = (
@@ -606,6 +683,7 @@ def run(repo, tier):
     r.rule("R13.4", "float2mpf: man * 2**exp == mantissa * 2**exponent identically, normalised to the float's own precision", floor=6)
     r.rule("R13.5", "mpf2multiword: every word carries x's sign, a slice (man & (mask << o)) >> o of its mantissa, the exponent exp + o and the slice's bit length; multiword2mpf sums every word once", floor=2)
     r.rule("R13.6", "mpf2float, bin2float, fraction2float, number2float: every returned value is constructed in the requested format (no NumPy promotion by an operand of another type)", floor=15)
+    r.rule("R13.7", "converters: a constant +infinity is produced only under a test that distinguishes the sign of the converted value (infinities map to themselves)", floor=4)
     r.rule("R13.3", "float2fraction decodes the IEEE fields exactly: for every finite bit pattern num/denom equals (-1)^s * significand * 2^exponent", floor=18)
     r.rule("R13.1", "format tables agree with IEEE-754 binary16/32/64 (widths, exponent/significand bits, precision, exponent ranges)", floor=30)
     n = check_format_dicts(r, repo)
@@ -631,4 +709,5 @@ def run(repo, tier):
     check_float2mpf(r, repo)
     check_mpf2multiword(r, repo)
     check_result_format(r, repo)
+    check_infinity_sign(r, repo)
     return r
